@@ -203,6 +203,7 @@ CONFIG = {
     "post_model": _c19_vm_sample,
     "assumptions": [
         "json.Marshal of the manifest document is a parameter (marshal : manifest -> str); the model's manifest record is the JSON-level document after omitempty; the harness re-parses the stored bytes with encoding/json and compares the document field by field",
+        "C19_annotation_order_independent assumes marshal_perm: the marshalled bytes do not depend on the order in which a map's entries are listed (encoding/json sorts map keys); the harness checks it on every successful call (annotations re-inserted in reverse order into maps of another capacity; raw stored JSON walked for sorted annotation keys)",
         "the digest function is a parameter H with the single hypothesis H \"{}\" = sha256:44136f...; collision-freeness of H is an explicit premise of the clauses that conclude equality of stored bytes",
         "the validation of a caller-supplied created value (time.Parse(time.RFC3339, _) followed by the explicit strict checks added by the fix of finding created-lenient) is modelled by the recogniser rfc3339_ok, proved equal to the RFC 3339 section 5.6 grammar with upper-case T/Z and no leap second; every disagreement with the real code (observed through PackManifest, go1.26.8 time package) is a correspondence failure; time.Now().UTC().Format(RFC3339) is the parameter `now` (the harness checks the generated value parses and lies within the call)",
         "Go regexp semantics for the ASCII-only, fully anchored mediaTypeRegexp = Base/Regex.v Lang (proved equal to the derivative matcher)",
